@@ -100,3 +100,11 @@ let () =
                   of_grammar (Printer.located_with Parser.pinned g lay)]
           end
       | _ -> raise (Shape "print args"))
+
+(* wf <grammar> -> (wf 1) | (wf 0): is the tree printable (Printer.wf)?  Used to measure how close
+   wf is to the parser's image. *)
+let () =
+  register "wf" (fun v ->
+      match v with
+      | List [g] -> List [Atom "wf"; Atom (if List.for_all Printer.wf_stmt (grammar_of g) then "1" else "0")]
+      | _ -> raise (Shape "wf args"))
